@@ -13,7 +13,7 @@ def jobs(tier):
             continue   # the pretty encoder needs its real constructor (string_view members): > 10 min per job, thorough tier only
         for k, kn in KINDS.items():
             for c in (0, 1):
-                J.append(dict(id='limit_%s_%s_%s' % (name, kn, 'close' if c else 'open'), harness='h_limit', props=['C10'], unwind=10, defs=dict(FMT=f, LIMIT=1, KIND=k, CLOSE=c), timeout=2400 if name == 'pjson' else 300, mem_gb=6 if name == 'pjson' else 4,
+                J.append(dict(id='limit_%s_%s_%s' % (name, kn, 'close' if c else 'open'), harness='h_limit', props=['C10'], unwind=10, defs=dict(FMT=f, LIMIT=1, KIND=k, CLOSE=c), timeout=1200 if name == 'pjson' else 300, mem_gb=6 if name == 'pjson' else 4,
                               desc='%s encoder visit_%s: refused with max_nesting_depth_exceeded iff depth+1 > max_nesting_depth, else depth+1%s' % (name, kn, '; visit_end_* restores the depth' if c else ''),
                               bound='any depth 0..limit, any limit (int), any declared length' + (' (0 when closed)' if c else '')))
     for f, name in ((2, 'cbor'), (3, 'msgpack'), (4, 'ubjson')):
